@@ -147,8 +147,6 @@ func runCase(cc grpc.ClientConnInterface, srv *scripted, c scase, measureLeak bo
 	out.call = cl
 	base := 0
 	if measureLeak {
-		settle(0) // let earlier work drain a little
-		time.Sleep(0)
 		base = runtime.NumGoroutine()
 	}
 
